@@ -193,6 +193,21 @@ def synthetic(res):
     want = [(None, 1, None, None, None)] * 3
     if [tuple(r) for r in got] != want:
         res.violation('h11:synthetic:meta-without-posting-metadata', 'meta / any_meta of a posting without metadata are NULL, entry_meta is the transaction metadata', {'transaction': 'postings built with meta=None'}, got, want)
+    # the location columns of the postings table are the posting's own: NULL without posting metadata, the posting's file when it differs
+    # from the transaction's
+    res.case(('synthetic', 'location-of-postings-without-metadata'))
+    got = conn.execute("SELECT filename, lineno, location FROM #postings WHERE narration = 'two equal legs'").fetchall()
+    if [tuple(r) for r in got] != [(None, None, None)] * 3:
+        res.violation('h11:synthetic:posting-location-without-metadata', 'filename / lineno / location of a posting without metadata are NULL', {'transaction': 'postings built with meta=None'}, got, [(None, None, None)] * 3)
+    legs2 = [data.Posting('Expenses:Coffee', _amount.Amount(_D('2'), 'USD'), None, None, None, {'filename': 'included.beancount', 'lineno': 7}),
+             data.Posting('Assets:Bank:Checking', _amount.Amount(_D('-2'), 'USD'), None, None, None, {'filename': 'included.beancount', 'lineno': 8})]
+    txn2 = data.Transaction({'filename': 'main.beancount', 'lineno': 3}, _dt.date(2020, 3, 2), '*', 'Cafe', 'other file', frozenset(), frozenset(), legs2)
+    conn2 = beanquery.connect('beancount:', entries=list(entries) + [txn2], errors=[], options=options)
+    res.case(('synthetic', 'location-of-postings-in-another-file'))
+    got = conn2.execute("SELECT filename, lineno, location FROM #postings WHERE narration = 'other file'").fetchall()
+    want = [('included.beancount', 7, 'included.beancount:7:'), ('included.beancount', 8, 'included.beancount:8:')]
+    if [tuple(r) for r in got] != want:
+        res.violation('h11:synthetic:posting-location-other-file', 'filename / lineno / location of a posting come from the posting metadata', {'transaction': 'posting metadata names another file'}, got, want)
     res.case(('synthetic', 'other_accounts'))
     got = conn.execute("SELECT account, other_accounts, number FROM #postings WHERE narration = 'two equal legs'").fetchall()
     want = [(p.account, sorted({q.account for q in legs if q is not p}), p.units.number) for p in legs]
